@@ -91,7 +91,11 @@ def _gen_evse(r, kind):
               "max": r.choice([16, 32, 32, 48, round(r.uniform(12, 80), 1)])}
         if r.random() < 0.06:
             e_["deadband_end"] = e_["max"]          # an on/off station: the only non-zero pilot it takes is its maximum
+        elif r.random() < 0.04:
+            e_["deadband_end"] = 0                  # no dead band at all (a legal zero)
         return e_
+    if kind == "cont_zero":
+        return {"type": "EVSE", "max": 0, "min": 0}      # a station taken out of service: 0 A is the only pilot it takes
     if kind == "finite":
         mode = r.random()
         if mode < 0.05:
@@ -461,6 +465,11 @@ def gen_world(rs: int, P: dict) -> dict:
             k = rr2.choice(cons)
             rc.append({"t": rr2.randint(1, last), "name": k["name"],
                        "limit": max(1.0, round(k["limit"] * rr2.choice([0.4, 0.6, 0.8, 1.25, 1.6, 2.5]), 1))})
+        ras = sub(rs, "reconfig_assign")
+        if ras.random() < P.get("reconfig_assign", 0.2):
+            # the operator overwrites the network's public limits vector (network.magnitudes = new array) instead of calling
+            # update_constraint: same rows, same order, one other limit
+            ras.choice(rc)["op"] = "assign"
         rrm = sub(rs, "reconfig_remove")
         if rrm.random() < P.get("reconfig_remove", 0.3):
             # the operator withdraws a limit altogether (a bare remove_constraint, nothing added in its place)
@@ -484,6 +493,9 @@ def constraints_at(sc, t):
         if r["t"] <= t:
             for i, c in enumerate(cons):
                 if c["name"] == r["name"]:
+                    if r.get("op") == "assign":
+                        cons[i] = dict(c, limit=r["limit"])      # (the row stays where it is)
+                        break
                     c = dict(cons.pop(i), limit=r["limit"])
                     if r.get("op") != "remove":
                         cons.append(c)
